@@ -385,9 +385,10 @@ func c20PostScript(r *run.Run) {
 func init() {
 	Register("C20", func(r *run.Run) {
 		r.Rule = "bounded exhaustive enumeration of name patterns, name-storage kinds, cmap subsets and GSUB variants on 5-glyph fonts; all runes / forbidden-character pairs for the PostScript name"
-		r.Assume = []string{"cmap targets and GSUB glyphs refer to existing glyphs", "stability is observed over 20 repeated calls (no controlled map-order seam yet)"}
+		r.Assume = []string{"cmap targets and GSUB glyphs refer to existing glyphs", "stability: 20 repeated calls inside C20.names, and every map iteration order of the seam's alphabet in C20.map-order"}
 		c20Names(r)
 		c20MakeSimple(r)
 		c20PostScript(r)
+		c20MapOrder(r)
 	})
 }
